@@ -401,7 +401,7 @@ struct HolderWL : Workload {
   bool inited = false;
   Error prepare_code(BaseEmitter* em, int attempt) {
     eh.clear();
-    if (attempt == 0 || !inited) {
+    if (attempt == 0 || !inited || !code.is_initialized()) {
       if (code.is_initialized()) code.reset(ResetPolicy::kSoft);
       CK(code.init(env));
       inited = true;
@@ -499,7 +499,7 @@ struct JitWL : Workload {
   void release_all() { if (rt) for (void* p : fns) if (p) rt->release(p); fns.clear(); }
   Error prepare(int attempt) override {
     eh.clear();
-    if (attempt == 0 || !rt || dead) {
+    if (attempt == 0 || !rt || dead || !rt->allocator().is_initialized()) {
       dead = false;
       fns.clear();
       JitAllocator::CreateParams params{};
